@@ -156,16 +156,22 @@ def _main(args, pid, tier, seed, t0, mod, builds, scratch):
     hang_violations = []
     noise = 0
 
+    hang_confirmed = []
+
     def do(u):
         out = []
         todo = [u]
         while todo:
             cur = todo.pop(0)
+            if hang_confirmed:
+                out.append(("skipped", cur, None))
+                continue
             status, res, prog, tail, wall = run_worker(cur, scratch, cur.get("timeout", unit_timeout))
             if status in ("timeout", "exit17"):
                 # hang policy: find the case, re-run it alone with a larger limit
                 if cur.get("alone"):
                     out.append(("hang", cur, tail))
+                    hang_confirmed.append(cur["uid"])
                     continue
                 if prog is None or "cases" not in cur:
                     out.append(("fault", cur, "unit timed out without progress information\n" + tail))
@@ -212,6 +218,9 @@ def _main(args, pid, tier, seed, t0, mod, builds, scratch):
     samples = []
     per_build = {}
     for kind, u, payload in results:
+        if kind == "skipped":
+            counters["units_skipped_after_confirmed_hang"] = counters.get("units_skipped_after_confirmed_hang", 0) + 1
+            continue
         if kind == "fault":
             faults.append("[%s] %s" % (u["build"], payload))
             continue
